@@ -594,4 +594,16 @@ theorem request_succeeds {digest : Src → Nat} (hinj : Function.Injective diges
           have := ih _ hinv ha.2 hk (by rw [hsame]; exact hact) (by rw [hsame]; exact hr)
           rw [this, hsame]
 
+/-- A cache wipe between requests keeps the invariant: the directory is empty, nobody owns
+anything in it, and finished requests keep what they loaded. -/
+theorem wipe_inv {digest : Src → Nat} {σ : State} (h : Inv digest σ) (hq : σ.Quiescent) :
+    Inv digest σ.wipe := by
+  refine ⟨fun _ => Or.inl rfl, fun _ _ _ => rfl, ?_, h.own⟩
+  intro i
+  have hl := hq i
+  have hp := h.procs_ok i
+  show ProcOK digest Dir.empty σ.nextTmp (σ.procs i).src (σ.procs i).pc
+  cases hpc : (σ.procs i).pc <;> rw [hpc] at hl hp <;> simp [PC.live] at hl <;>
+    simp [ProcOK] at hp ⊢ <;> exact hp
+
 end Pyiga.CompileCache
